@@ -3,7 +3,7 @@ import ast
 
 from . import rule, info
 from ..program import AnalysisError, src, norm
-from ..util import (is_name, calls_in, callee_qual, deref, ancestors, evaluator_calls, handler_outcomes,
+from ..util import (polarity, exclusive, is_name, calls_in, callee_qual, deref, ancestors, evaluator_calls, handler_outcomes,
                     stmt_of, fmt_witness, parent)
 
 info('C03',
@@ -534,17 +534,22 @@ def callables(ctx):
     for q in ('core.AUTO', 'core.FILL'):
         u = ctx.unit(q)
         target, spec = u.params[0], u.params[1]
-        found = 0
-        for n in u.own_nodes():
-            if isinstance(n, ast.If) and isinstance(n.test, ast.Call) and is_name(n.test.func, 'callable') \
-                    and n.test.args and is_name(n.test.args[0], spec):
-                found += 1
-                b = n.body[0]
-                ok = isinstance(b, ast.Return) and isinstance(b.value, ast.Call) and is_name(b.value.func, spec) \
-                    and len(b.value.args) == 1 and is_name(b.value.args[0], target) and not b.value.keywords
-                ctx.ob(ok, u, 'a callable spec is called with the current target and its result returned: %s' % norm(b),
-                       node=b)
-        ctx.require(found == 1, '%s: callable branch not found' % q)
+        ucfg = ctx.cfg(u)
+        tests = [(t, polarity(t.ast, 'callable(%s)' % spec)) for t in ucfg.nodes if t.kind == 'test']
+        tests = [(t, e) for t, e in tests if e]
+        ctx.ob(len(tests) == 1, u, 'callable specs are recognised by callable(spec)',
+               '' if len(tests) == 1 else 'found %d callable(spec) tests' % len(tests))
+        calls = [n for n in ucfg.nodes if n.kind == 'stmt' and any(isinstance(c, ast.Call) and is_name(c.func, spec)
+                                                                  for c in ast.walk(n.ast))]
+        for n in calls:
+            b = n.ast
+            ok = isinstance(b, ast.Return) and isinstance(b.value, ast.Call) and is_name(b.value.func, spec) \
+                and len(b.value.args) == 1 and is_name(b.value.args[0], target) and not b.value.keywords
+            ctx.ob(ok, u, 'a callable spec is called with the current target and its result returned: %s' % norm(b), node=b)
+            if tests:
+                t, holds = tests[0]
+                ctx.ob(n in exclusive(ucfg, t, holds), u, 'the spec is called only when it is callable', node=b)
+        ctx.ob(len(calls) == 1, u, 'one call site for callable specs (%d)' % len(calls))
     # AUTO dispatch: dict -> _handle_dict, list -> _handle_list, tuple -> _handle_tuple
     u = ctx.unit('core.AUTO')
     want = {'dict': 'core._handle_dict', 'list': 'core._handle_list', 'tuple': 'core._handle_tuple'}
